@@ -36,7 +36,7 @@ def tagsOf (m m' : M) (op : Op) (ob : Obs) : List String :=
   | _, _ => []
 
 def check (sc : Driver.Script) : Driver.Result :=
-  checkWith sc (fun n => some (Sonic.Model.WsStream.new n)) fun m op ob res i =>
+  checkWith sc (fun n => some (Sonic.Model.WsStream.new n)) (fun m op ob res i =>
     match m with
     | none => (none, res)
     | some b =>
@@ -45,5 +45,6 @@ def check (sc : Driver.Script) : Driver.Result :=
         (none, { res with modelDiff := res.modelDiff <|> some (i, s!"impl=[{showObs ob}] model=[{showObs mo}]") })
       else
         (some b', { res with tags := (tagsOf b b' op ob).foldl Driver.addTag res.tags })
+  ) (fun _ => none)
 
 end Driver.WsStream
